@@ -65,7 +65,11 @@ def gen_big(r, n):
         # a few rows that stay in memory
         ops.append("combine " + " ".join("%d:%d" % (r.below(nkeys), 100) for _ in range(r.rng(0, 5))))
         ops.append("reader DEST " + " ".join(str(r.choice([1, 7, 64, 128, 200])) for _ in range(r.rng(1, 3))))
-        yield "CB %d %d ; %s" % (r.choice([8, 128]), r.choice([130, 150, 256, 300, 1000]), " ; ".join(ops))
+        if r.chance(1, 3):
+            # spill batches larger than the 128-row merge buffers
+            yield "CBS %d %d %d ; %s" % (r.choice([129, 256, 300, 512]), r.choice([8, 128]), r.choice([130, 150, 256, 300, 1000]), " ; ".join(ops))
+        else:
+            yield "CB %d %d ; %s" % (r.choice([8, 128]), r.choice([130, 150, 256, 300, 1000]), " ; ".join(ops))
 
 
 _gen_small = gen
